@@ -686,6 +686,7 @@ func TestCheck(t *testing.T) {
 	defer stopGRPC()
 	scs = append(scs, report.Scenario{Name: "pt/template-sets", Bound: 0, Wrap: report.Bubble(t), Body: func(r *explore.Run) { ptBody(r, rep, "pt/template-sets", false) }})
 	scs = append(scs, report.Scenario{Name: "pt-faults/template-sets", Bound: 1, Wrap: report.Bubble(t), Body: func(r *explore.Run) { ptBody(r, rep, "pt-faults/template-sets", true) }})
+	scs = append(scs, report.Scenario{Name: "pipeline/colliding-coordinates", Bound: 0, Wrap: report.Bubble(t), Body: func(r *explore.Run) { twinsBody(r, rep, "pipeline/colliding-coordinates") }})
 	rep.SelfCheck(t, scs[0], func() { prepared = map[string]*simkube.Store{} })
 	rep.RunScenarios(t, scs)
 	rep.Write(t)
